@@ -116,6 +116,7 @@ zix_file_equals(ZixAllocator* const allocator,
     void* const  buf_b  = paged ? page_b : stack_b;
     const size_t buf_sz = paged ? size : sizeof(stack_a);
 
+    errno = 0; // A failed allocation may have set errno
     match = true;
     for (ZixSystemCountReturn n = 0; (n = read(fd_a, buf_a, buf_sz)) > 0;) {
       if (read(fd_b, buf_b, buf_sz) != n || !!memcmp(buf_a, buf_b, (size_t)n)) {
